@@ -130,10 +130,7 @@ Print Assumptions exploded_token_count_is_row_count.
 Theorem strings_by_spec : forall col,
   column_of is_strlike col -> existsb str_cell col = true ->
   infer_series_stype col = Inferred (Some (string_table_spec (dropna col))).
-Proof.
-  intros col H S. rewrite (table_string col H S). unfold string_table_spec.
-  now rewrite multicat_test_is_spec.
-Qed.
+Proof. exact table_string_spec. Qed.
 Print Assumptions strings_by_spec.
 
 (* 7. numeric lists: embedding iff all lists have one length and only finite floats,
@@ -173,11 +170,7 @@ Theorem min_count_is_least_multiplicity : forall ser,
   ser <> [] ->
   (exists x, In x ser /\ min_count ser = count_by cell_eqb x ser) /\
   (forall x, In x ser -> min_count ser <= count_by cell_eqb x ser).
-Proof.
-  intros ser H. split.
-  - exact (min_count_by_witness cell_eqb ser H).
-  - intros x. exact (min_count_by_le cell_eqb ser x).
-Qed.
+Proof. exact min_count_least. Qed.
 Print Assumptions min_count_is_least_multiplicity.
 
 (* ---------------------------------------------------------------- invariances *)
@@ -201,10 +194,7 @@ Definition dates_explicit (ser : list cell) : Prop :=
 
 Theorem dates_explicit_sufficient : forall ser,
   (forall x, In x ser -> is_datestr x = false) -> ser <> [] -> dates_explicit ser.
-Proof.
-  intros ser H Hne. destruct ser as [|x r]; [congruence|].
-  exact (non_date_cell_robust (x :: r) x (or_introl eq_refl) (H x (or_introl eq_refl))).
-Qed.
+Proof. exact no_date_cells_robust. Qed.
 Print Assumptions dates_explicit_sufficient.
 
 Theorem dates_explicit_sufficient' : forall ser f,
